@@ -710,9 +710,13 @@ class PhrasePlugin(Plugin):
                     for t in tokens:
                         words.append(t.text)
                         char_ranges.append((sc + t.startchar, sc + t.endchar))
+                elif not field.format:
+                    # An unindexed (e.g. STORED) field: nothing to search
+                    return attach(query.error_query("Field %r is not indexed"
+                                                    % fieldname), self)
                 else:
-                    # We have a field but it doesn't have a format object,
-                    # for some reason (it's self-parsing?), so use process_text
+                    # We have a field but it doesn't have an analyzer, for
+                    # some reason (it's self-parsing?), so use process_text
                     # to get the texts (we won't know the start/end chars)
                     words = list(field.process_text(text, mode="query"))
                     char_ranges = [(None, None)] * len(words)
